@@ -882,7 +882,21 @@ func RuleR5(c *Ctx) {
 					}
 					return false
 				}
-				if cf.MustAt(as, asked, savedFlag, nil) {
+				byFinder := false
+				if call, ok := ast.Unparen(cf.Resolve(sel.X)).(*ast.CallExpr); ok {
+					if gd := c.P.Decl(Callee(info, call)); gd != nil && gd.Body != nil {
+						ginfo := c.P.PkgOfDecl(gd).TypesInfo
+						ast.Inspect(gd.Body, func(y ast.Node) bool {
+							if s2, ok := y.(*ast.SelectorExpr); ok && ginfo.ObjectOf(s2.Sel) == types.Object(flag) {
+								byFinder = true
+							}
+							return !byFinder
+						})
+					}
+				}
+				if byFinder {
+					sc.Holds(key, c.P.Pos(as.Pos()), "the directive that is left was picked by a finder that looks at the parenthesis flag")
+				} else if cf.MustAt(as, asked, savedFlag, nil) {
 					sc.Holds(key, c.P.Pos(as.Pos()), "the step outwards is taken with the parenthesis flag in view")
 				} else {
 					sc.Violation(key, c.P.Pos(as.Pos()), "the context is moved outwards ("+types.ExprString(as.Rhs[i])+") without the HasExplicitContext flag having been looked at: the walk leaves a directive whose `(` is still open, so a directive written inside the parentheses is attached outside them and the unclosed parenthesis is no longer noticed")
@@ -1234,6 +1248,36 @@ func RuleCH1(c *Ctx) {
 				}
 			}
 			if !positional {
+				return true
+			}
+			// the first element taken as the reference the others are compared with: the
+			// function still walks the whole list
+			walks := false
+			ast.Inspect(fd.Body, func(y ast.Node) bool {
+				switch z := y.(type) {
+				case *ast.RangeStmt:
+					rx := ast.Unparen(z.X)
+					if se, ok := rx.(*ast.SliceExpr); ok {
+						rx = ast.Unparen(se.X) // the rest of the list: range X.Children[1:]
+					}
+					if cfgx.SameExpr(info, rx, ix.X) {
+						walks = true
+					}
+				case *ast.ForStmt:
+					if z.Cond != nil {
+						ast.Inspect(z.Cond, func(w ast.Node) bool {
+							if lc, ok := w.(*ast.CallExpr); ok {
+								if lid, ok := lc.Fun.(*ast.Ident); ok && lid.Name == "len" && len(lc.Args) == 1 && cfgx.SameExpr(info, lc.Args[0], ix.X) {
+									walks = true
+								}
+							}
+							return true
+						})
+					}
+				}
+				return true
+			})
+			if walks {
 				return true
 			}
 			n++
